@@ -37,7 +37,9 @@ def dirn():
 def s_line():
     return st.fixed_dictionaries({"kind": st.just("line"), "p": pt(), "w": dirn(), "lam": gens.fl(-10, 10), "x": pt(),
                                   "T": gens.pose3(t_hi=3), "k": gens.logmag(-2, 2), "n": dirn(), "tilt": gens.fl(-1.5, 1.5), "q": pt(),
-                                  "lams": st.lists(gens.fl(-10, 10), min_size=1, max_size=4)})
+                                  "lams": st.lists(gens.fl(-10, 10), min_size=1, max_size=4),
+                                  "kp": st.one_of(st.just(1.0), gens.logmag(-5, 1)), "kp1": st.one_of(st.just(1.0), gens.logmag(-5, 2)),
+                                  "kp2": st.one_of(st.just(1.0), gens.logmag(-5, 2))})
 
 
 def s_pair():
@@ -86,10 +88,25 @@ def _line(case):
     n1 = refs.unit(n1)
     n2 = np.cross(wh, n1)
     # the same two planes with arbitrarily scaled coefficient vectors (non-unit normals, scaled offsets)
+    # (a plane is its coefficient 4-vector up to ANY positive factor: planes through points millimetres apart have tiny ones)
     pl1, pl2 = np.r_[n1, -np.dot(n1, p)] * case["k"], np.r_[n2, -np.dot(n2, p)] * (0.5 + abs(case["tilt"]) * 3.0)
     ok, l3 = c.lib("Planes", L.Plucker.Planes, list(pl1), list(pl2))
     if ok:
         lines["Planes"] = l3
+    # a plane is its coefficient 4-vector up to ANY positive factor (a plane through three points millimetres apart has a
+    # normal of 1e-5): the line of two such planes exists and has the same direction and the same point closest to the
+    # origin (scale-free quantities; the direction LENGTH of that line is outside the quantified range, so nothing that
+    # depends on it - contains(), closest() - is judged)
+    k1, k2 = case.get("kp1", 1.0), case.get("kp2", 1.0)
+    if k1 != 1.0 or k2 != 1.0:
+        oks, ls = c.lib("Planes/scaled", L.Plucker.Planes, list(pl1 * k1), list(pl2 * k2))
+        if oks and c.true("Planes/scaled/type", type(ls) is L.Plucker and len(ls) == 1, "Planes gave %r" % (type(ls),)):
+            ws, vs = np.asarray(ls.w, dtype=float), np.asarray(ls.v, dtype=float)
+            nws = float(np.linalg.norm(ws))
+            if c.true("Planes/scaled/direction_nonzero", nws > 0 and np.all(np.isfinite(ws)), "direction %r" % (ws,)):
+                c.eq("Planes/scaled/direction", np.cross(ws / nws, wh), np.zeros(3), TOL)
+                pp_true = p - wh * float(np.dot(p, wh))
+                c.eq("Planes/scaled/principal_point", np.cross(vs, ws) / (nws * nws), pp_true, TOL * 10, S)
     x = arr(case["x"])
     Sx = max(S, float(np.max(np.abs(x))))
     for name, ln in lines.items():
@@ -189,7 +206,7 @@ def _line(case):
             if okq:
                 c.true(name + "/==/displaced", bool(e) is False, "line == a parallel line 5% of the scale away")
         # line / plane intersection
-        nrm = refs.unit(math.cos(case["tilt"]) * wh + math.sin(case["tilt"]) * n1) * float(np.linalg.norm(case["n"]))
+        nrm = refs.unit(math.cos(case["tilt"]) * wh + math.sin(case["tilt"]) * n1) * float(np.linalg.norm(case["n"])) * case.get("kp", 1.0)
         if abs(np.dot(refs.unit(nrm), wh)) >= 1e-2:
             qq = arr(case["q"])
             Sq = max(S, float(np.max(np.abs(qq))))
